@@ -31,7 +31,10 @@ type session struct {
 	closed  [2]bool
 	started [2]bool
 	steps   []map[string]any // for the replay file
+	states  []tla.State      // the behaviour being replayed
 	realRI  bool             // the spec ran with the real rekey interval: compare epochs
+	job     string
+	at      int // index of the state being compared
 
 	// statistics
 	maxCtr   [2]int
@@ -115,7 +118,8 @@ func (s *session) violation(key, what string) {
 		"session": s.id, "pairing": s.pair.String(), "seed": s.ctx.Seed,
 		"scenario": map[string]any{"garbageI": s.sc.garbage[epI], "garbageR": s.sc.garbage[epR],
 			"decoysI": s.sc.decoys[epI], "decoysR": s.sc.decoys[epR], "prefixMatch": s.sc.pm, "hello": s.hello},
-		"steps": s.steps,
+		"steps": s.steps, "job": s.job, "real_rekey_interval": s.realRI,
+		"behaviour": stateTexts(s.states, s.at),
 	})
 }
 
@@ -169,7 +173,9 @@ func (s *session) run(states []tla.State) error {
 	if err := s.launch(epR); err != nil {
 		return err
 	}
+	s.states = states
 	for k := 1; k < len(states) && !s.diverged; k++ {
+		s.at = k
 		if err := s.step(states[k-1], states[k]); err != nil {
 			return fmt.Errorf("session %s step %d (%s): %w", s.id, k, states[k]["last"].String(), err)
 		}
@@ -179,4 +185,20 @@ func (s *session) run(states []tla.State) error {
 	}
 	s.ctx.AddEval(s.evals)
 	return nil
+}
+
+// stateTexts renders the behaviour up to state `upto` in TLC's own syntax so
+// that `--replay` can parse it back.
+func stateTexts(states []tla.State, upto int) []string {
+	var out []string
+	for k := 0; k <= upto && k < len(states); k++ {
+		var sb []byte
+		for _, name := range []string{"sc", "st", "wire", "last", "out"} {
+			if v, ok := states[k][name]; ok {
+				sb = append(sb, []byte("/\\ "+name+" = "+v.String()+"\n")...)
+			}
+		}
+		out = append(out, string(sb))
+	}
+	return out
 }
